@@ -11,7 +11,7 @@ META = {
     "group": "OAuth",
     "technique": "Coq proof over all interleavings (any number of requests, any schedule of the atomic cache actions) of a Gallina model of consumeCode/consumeRefreshToken and the token endpoint + forced-interleaving correspondence with the real code through a go/ast-inserted yield point",
     "text": "Theorems C23_single_use / C23_single_use_any_schedule (for every number of concurrent requests and every interleaving of their cache lookups and deletions, with expiry at any point, at most one consume call succeeds), C23_tokens_at_most_once and C23_refresh_at_most_once (at most one token response at the endpoint), C23_pkce (a token response needs matching client, redirect and, when a challenge was stored, base64url(sha256(verifier)) = challenge; public clients need a challenge) and C23_lone_request_succeeds are proved over the model; C23_refuted_current keeps the double redemption of the code before the repair (schedule F0 F1 D0 D1) as a witness. Every interleaving of 2 and 3 requests (and sampled ones of 4) is forced on the real consumeCode, consumeRefreshToken and TokenHandler and compared with the model; the property is also evaluated on the real outputs. full",
-    "note": "Trusted: Coq kernel; SHA-256 is a Section function (instantiated by a table of the real digests in the correspondence); assumption that the scheduler interleaves only at the boundaries of caches.Find / caches.Delete (each holds cacheLock for its whole body) and that a code / refresh token string is never stored twice (256-bit random); client authentication before consume is not modelled (such requests never touch the cache: checked on the real code); the instrumenter (harness/C23/instrument), the overlay harness and the Python comparison.",
+    "note": "Trusted: Coq kernel; SHA-256 is a Section function (instantiated by a table of the real digests in the correspondence); the scheduler interleaves only at the boundaries of caches.Find / caches.Delete: that caches.Delete is one critical section under the write lock is checked on the source on every run (otherwise requests are also parked inside it), caches.Find's atomicity is assumed (C28) and that a code / refresh token string is never stored twice (256-bit random); client authentication before consume is not modelled (such requests never touch the cache: checked on the real code); the instrumenter (harness/C23/instrument), the overlay harness and the Python comparison.",
 }
 
 V0 = "dBjftJeZ4CVP-mB92K27uhbUJU1p1r_wW1gFWFOEjXk"
